@@ -17,6 +17,25 @@ CLAIMS = {
         note="Trusted: TLC, the ~40-line replay/recording driver (harness/zcv/props/c04.py), Python's dict.get and "
              "os.environ as environment. Bounded: exhaustive to length 5 (quick) / 6 (thorough); longer strings only sampled.",
         technique="TLA+ spec ZSubst + TLC exhaustive enumeration replayed on the code; TLC trace validation of recorded runs"),
+    "C03": dict(
+        text="TLC explores ZLines.tla exhaustively: every line up to the length bound over the property's 16-class "
+             "alphabet (longer lines over sub-alphabets) in three contexts, and every text of a few lines over representative "
+             "lines; it checks that the operational classifier (the code's slices and scans) equals the declarative grammar and "
+             "that the stack machine equals recursive descent; every explored behaviour is replayed on "
+             "ZConfig.schemaless.loadConfigFile, and random 40-line Unicode texts recorded from the code are validated by TLC.",
+        design="3 (C03)",
+        note="Trusted: TLC, the replay/recording driver (harness/zcv/props/c03.py), str.lower()/str.isspace() on non-ASCII "
+             "characters as environment tables. Bounded: lines <= 4 (quick) / 5 (thorough) over the full alphabet.",
+        technique="TLA+ spec ZLines (classifier + text machine vs declarative grammar) checked by TLC; enumeration replayed on the code; TLC trace validation"),
+    "C17": dict(
+        text="The round trip load -> str -> load -> str is recorded from the real code for every text of a few lines over "
+             "representative lines (values with $$, grammar characters, repeats, nesting, imports) and for random texts; TLC "
+             "validates each recorded round trip against ZLines: first outcome, the printed text parsed by the specification's own "
+             "grammar has the same structure, the reload equals the first tree, the reprint is identical; %define/%include refused.",
+        design="3 (C17)",
+        note="Trusted: TLC, the recording driver (harness/zcv/props/c17.py). The printed layout is deliberately not prescribed "
+             "(the statement fixes a relation). Bounded corpus + random sampling.",
+        technique="TLC trace validation of recorded round trips against the TLA+ spec ZLines (relation, not layout)"),
 }
 
 NOT_YET = "check not built yet (construction order in DESIGN.md section 8)"
